@@ -16,8 +16,10 @@ import traceback
 from .tape import derive_seed
 
 VERIF = os.path.dirname(os.path.dirname(os.path.abspath(__file__)))
-REPLAY_DIR = os.path.join(VERIF, 'replays')
-EVIDENCE_DIR = os.path.join(VERIF, 'evidence')
+REPLAY_DIR = os.environ.get('VERIF_REPLAY_DIR') or \
+    os.path.join(VERIF, 'replays')
+EVIDENCE_DIR = os.environ.get('VERIF_EVIDENCE_DIR') or \
+    os.path.join(VERIF, 'evidence')
 KNOWN_FILE = os.path.join(VERIF, 'known_findings.json')
 PY = sys.executable
 
